@@ -42,10 +42,17 @@ class RecordingDest(object):
         self.exc_cls = DEST_EXC[exc_index % len(DEST_EXC)]
         self.offered = []
         self.raised = []  # exception object or None per call
+        self.runaway = False
 
     def __call__(self, message):
         k = len(self.offered)
         self.offered.append(dict(message))
+        if message.get("message_type") == REPORT and REPORT in str(message.get("message")):
+            # a report about a failed report: the recursion the property rules
+            # out.  Stop failing so that the run ends, and flag it.
+            self.runaway = True
+            self.raised.append(None)
+            return
         if k in self.mask or (self.every and k % self.every == 0):
             e = self.exc_cls("dest%d fails on call %d" % (self.index, k))
             self.raised.append(e)
@@ -82,6 +89,7 @@ def check(case):
         program.insert(cut, {"op": "hook", "name": "add_late"})
     run = P.run_program(program, sink="memory", destinations=destinations, opts={"hooks": {"add_late": add_late}})
     require(not run.errors, "api-raised", lambda: repr(run.errors))
+    require(not any(d.runaway for d in dests), "report-on-report", "a failure while delivering an eliot:destination_failure report was itself reported")
     S = run.messages  # what the never-failing observer was offered
     if late is not None and late not in reg_at:
         # the program ended (exception) before the hook ran
